@@ -28,6 +28,13 @@ struct Query { // what a virtual server understood from a transmission
   Bytes                 client_cookie, server_cookie;
   uint16_t              ancount = 0, nscount = 0, arcount = 0;
   std::string           err;
+  struct RRSeen {
+    std::string owner;  // presentation form
+    unsigned    type = 0, cls = 0;
+    uint32_t    ttl = 0;
+    std::string rdname; // for NS/CNAME/PTR: the name in RDATA (decompressed relative to the message start)
+  };
+  std::vector<RRSeen>   rrs;
 };
 
 inline std::string name_text(const std::vector<std::string> &labels)
@@ -121,10 +128,28 @@ inline Query parse_query(const Bytes &m)
     unsigned type = m[off] << 8 | m[off + 1];
     unsigned cls  = m[off + 2] << 8 | m[off + 3];
     unsigned rdl  = m[off + 8] << 8 | m[off + 9];
+    uint32_t ttl = (uint32_t)m[off + 4] << 24 | (uint32_t)m[off + 5] << 16 | (uint32_t)m[off + 6] << 8 | m[off + 7];
     off += 10;
     if (off + rdl > m.size()) {
       q.err = "rdlen";
       return q;
+    }
+    {
+      Query::RRSeen seen;
+      seen.owner = name_text(nm);
+      seen.type  = type;
+      seen.cls   = cls;
+      seen.ttl   = ttl;
+      if (type == T_NS || type == T_CNAME || type == T_PTR) {
+        size_t                   o2 = off;
+        std::vector<std::string> rn;
+        if (!read_name(m, o2, rn) || o2 != off + rdl) {
+          q.err = "rdata-name";
+          return q;
+        }
+        seen.rdname = name_text(rn);
+      }
+      q.rrs.push_back(seen);
     }
     if (type == T_OPT) {
       q.has_opt  = true;
